@@ -291,7 +291,7 @@ func (c *c04Case) build() (tpl string, data any, wantInst []string, wantElse boo
 }
 
 // loop variable names beyond [A-Za-z0-9]
-var c04Unusual = map[string]bool{"größe": true, "élément": true, "項": true, "_x": true, "it2": true, "$v": true}
+var c04Unusual = map[string]bool{"größe": true, "élément": true, "項": true, "_x": true, "it2": true, "$v": true, "last": true, "type": true}
 
 // --- body part: every way a loop body can consume the item, differential against one-item loops
 
@@ -566,7 +566,7 @@ func init() {
 	core.Register(&core.Check{
 		ID:    "C04",
 		Level: "exploration",
-		Rule: "every combination of collection kind (15: incl. slices with nil items, slices of any/int/int32/string/bool/map/struct/*struct, array, nil slice, nil value, missing) x length x access path x loop form (incl. the tight and padded spellings of (i, v)) x loop-variable name (fresh / shadows a map key / shadows a root struct field by name / by JSON tag / spelled with non-ASCII letters, digits, _ or $) x v-else (none/adjacent/after whitespace) x looped element (plain, per-item v-if keeping some / no items, bindings, <template>) x root data (map/struct/*struct) x printing position ({{ }}, expression); plus nested loops; plus a body part: 23 ways a loop body can consume the item (text, deep text, interpolated/bound attribute, :class, :style, v-text, v-html, <template v-html>, v-show, inner v-if/v-else, <template :var>, include with bound / interpolated prop, slot content used once / twice, prop-less include, v-slot template without props, include without content, inner v-for, filters, pre) x 1..3 items x loop form x looped element x entry point, with the oracle: instance i shows item i and no other item and equals the single instance of a loop over [item i] alone, and the outer variables named like the loop variables have their outer values before and after the loop. " +
+		Rule: "every combination of collection kind (15: incl. slices with nil items, slices of any/int/int32/string/bool/map/struct/*struct, array, nil slice, nil value, missing) x length x access path x loop form (incl. the tight and padded spellings of (i, v)) x loop-variable name (fresh / shadows a map key / shadows a root struct field by name / by JSON tag / spelled with non-ASCII letters, digits, _ or $ / named like a function of the expression library) x v-else (none/adjacent/after whitespace) x looped element (plain, per-item v-if keeping some / no items, bindings, <template>) x root data (map/struct/*struct) x printing position ({{ }}, expression); plus nested loops; plus a body part: 23 ways a loop body can consume the item (text, deep text, interpolated/bound attribute, :class, :style, v-text, v-html, <template v-html>, v-show, inner v-if/v-else, <template :var>, include with bound / interpolated prop, slot content used once / twice, prop-less include, v-slot template without props, include without content, inner v-for, filters, pre) x 1..3 items x loop form x looped element x entry point, with the oracle: instance i shows item i and no other item and equals the single instance of a loop over [item i] alone, and the outer variables named like the loop variables have their outer values before and after the loop. " +
 			"oracle: reference interpreter gives the instance list, for-else presence and the value of the loop variable's name before and after the loop. non-trivial = at least one item",
 		Bounds:      map[string]string{"quick": "lengths 0..2, nesting depth 2", "thorough": "lengths 0..3, nesting depth 2"},
 		Assumptions: []string{"iteration over maps is C10's subject, not enumerated here"},
@@ -601,7 +601,7 @@ func init() {
 				}
 			}
 			// spelling part: loop-variable names beyond ASCII letters and the documented spellings of the (i, v) form
-			for _, v := range []string{"größe", "élément", "項", "_x", "it2", "$v"} {
+			for _, v := range []string{"größe", "élément", "項", "_x", "it2", "$v", "last", "type"} {
 				for _, form := range []string{"x", "ix", "ixtight", "ixpad"} {
 					for _, coll := range []string{"strings", "structs"} {
 						for n := 0; n <= 2; n++ {
